@@ -9,6 +9,8 @@ import (
 	"io"
 	"os"
 	"reflect"
+	"runtime"
+	"strings"
 	"sync"
 	"syscall"
 
@@ -21,8 +23,11 @@ var ErrInjected = errors.New("crash: injected step failure")
 
 // Gated is a goroutine parked at the start of a database transaction (transaction-level scheduling, C17).
 type Gated struct {
-	Name string
-	ch   chan struct{}
+	Name   string
+	GID    int64  // goroutine that is parked (only with Hook.Track)
+	Frame  string // innermost gluon frames of the parked goroutine (only with Hook.Track)
+	Parent int64  // goroutine that created the parked one (0 if unknown)
+	ch     chan struct{}
 }
 
 // Release lets the parked transaction proceed.
@@ -30,15 +35,19 @@ func (g *Gated) Release() { close(g.ch) }
 
 type Hook struct {
 	// GateOn: when set, every Read / Write of the database client parks at its start until released.
-	GateOn  bool
-	pending []*Gated
-	mu      sync.Mutex
-	Enabled bool
-	Mode    string // "count" | "kill" | "error"
-	At      int    // 1-based step at which to act
-	N       int    // steps seen while enabled
-	Names   []string
-	Fired   bool
+	GateOn bool
+	// Track: record the goroutine id (and, when parking, the gluon frames) of every transaction start.
+	Track      bool
+	LastGID    int64
+	LastParent int64
+	pending    []*Gated
+	mu         sync.Mutex
+	Enabled    bool
+	Mode       string // "count" | "kill" | "error"
+	At         int    // 1-based step at which to act
+	N          int    // steps seen while enabled
+	Names      []string
+	Fired      bool
 }
 
 func init() {
@@ -98,14 +107,46 @@ type clientWrap struct {
 // gate parks the calling goroutine until the explorer releases it.
 func (h *Hook) gate(name string) {
 	h.mu.Lock()
+	var gid int64
+	var frame string
+	var parent int64
+	if h.Track {
+		gid, frame, parent = whoAmI()
+		h.LastGID, h.LastParent = gid, parent
+	}
 	if !h.GateOn {
 		h.mu.Unlock()
 		return
 	}
-	g := &Gated{Name: name, ch: make(chan struct{})}
+	g := &Gated{Name: name, GID: gid, Frame: frame, Parent: parent, ch: make(chan struct{})}
 	h.pending = append(h.pending, g)
 	h.mu.Unlock()
 	<-g.ch
+}
+
+// whoAmI returns the id of the calling goroutine, the gluon functions on its stack (innermost first) and the id
+// of the goroutine that created it.
+func whoAmI() (int64, string, int64) {
+	buf := make([]byte, 32768)
+	buf = buf[:runtime.Stack(buf, false)]
+	var gid, parent int64
+	_, _ = fmt.Sscanf(string(buf), "goroutine %d ", &gid)
+	var fs []string
+	for _, ln := range strings.Split(string(buf), "\n") {
+		if strings.HasPrefix(ln, "created by ") {
+			if i := strings.LastIndex(ln, " in goroutine "); i > 0 {
+				_, _ = fmt.Sscanf(ln[i:], " in goroutine %d", &parent)
+			}
+			continue
+		}
+		if strings.HasPrefix(ln, "github.com/ProtonMail/gluon") {
+			if i := strings.LastIndex(ln, "("); i > 0 {
+				ln = ln[:i]
+			}
+			fs = append(fs, strings.TrimPrefix(ln, "github.com/ProtonMail/gluon"))
+		}
+	}
+	return gid, strings.Join(fs, " < "), parent
 }
 
 // SetGate switches transaction gating on or off; switching it off releases everything that is parked.
